@@ -523,7 +523,7 @@ func c17CheckMain(args []string) int {
 	// a unit (one transcript and its replicas) takes 5-25 s: stop starting units early enough
 	reserve := 17.0
 	if *tier == "thorough" {
-		reserve = 45
+		reserve = 90
 	}
 	if reserve > budget/3 {
 		reserve = budget / 3
@@ -831,6 +831,7 @@ func (c *c17Cov) write(tier string, seed uint64, wall, budget float64, workers i
 		"node_options_used":                      c.options,
 		"replica_shutdown_notes":                 c.notes,
 		"divergent_comparisons":                  c.diverged,
+		"comparisons_agreeing_to_the_end":        c.evals - c.diverged,
 		"recordings_perturbed_by_harness_writes": c.perturbed,
 		"reference_blocks_from_pure_replay":      c.pureBlocks,
 		"known_findings_hit":                     knownHit,
